@@ -24,6 +24,8 @@ not reachable; that part is *validated per program* by tools/props/c12.py (sqlgl
 executed on DuckDB), and is labelled validation in the evidence.
 -/
 import SqlframeModel.Lemmas.C12
+import SqlframeModel.Lemmas.C12Fns
+import SqlframeModel.Lemmas.C12Format
 import SqlframeModel.Impl.C12Round
 namespace Sqlframe
 open Sqlframe.Gen Sqlframe.C12
@@ -205,6 +207,275 @@ example : sqlframeRound "postgres" 5 = 3 ∧ sqlframeRound "duckdb" 5 = 3 := by 
 -- an instance of C12_refs_resolve's hypothesis: the spark input dialect of every session in the table
 example : strategyOf duckDialects.input = .caseInsensitive := by decide
 example : (stmtIdent strategyOf { input := "spark", output := "spark", execution := "postgres" } ⟨"Order Id".toList, true⟩).name = "order id".toList := by decide
+
+/-! ### per-engine function decisions (Gen/EngineFns.lean, Impl/C12Fns.lean) -/
+
+/-! #### time formats -/
+
+/-- fresh sessions of two engines (input = output = spark) -/
+def snowflakeSession : Dialects := { input := "spark", output := "spark", execution := "snowflake" }
+def postgresSession : Dialects := { input := "spark", output := "spark", execution := "postgres" }
+
+/-- the generated roles are the right ones: PySpark formats are read in the INPUT dialect; the default handed to an engine
+    function and the translation of an explicit format are written in the EXECUTION dialect -/
+theorem C12_time_roles :
+    defaultTimeFormatRole = .input ∧ formatTimeReadRole = .input ∧
+    execTimeDefaultRole = .execution ∧ execTimeReadRole = .input ∧ execTimeWriteRole = .execution := by decide
+
+/-- on a fresh session of EVERY engine package, the default format `format_execution_time(None)` spells, read in that engine's
+    own format language, means what Spark's default format means in Spark's — relative to sqlglot's tables (Impl/C12TimeTables) -/
+theorem C12_default_time_format :
+    ∀ r ∈ engines, engineReads (rowDialects r) (formatExecutionTime (rowDialects r) none) = sparkReads none := by
+  decide +kernel
+
+/-- … and so does the format literal of the statement `try_to_timestamp(col)` sends (through whichever helper the engine's
+    branch uses: `format_time` for DuckDB / BigQuery, `format_execution_time` for the others) -/
+theorem C12_try_to_timestamp_default :
+    ∀ r ∈ engines, (tryToTimestampLiteral r.engine (rowDialects r) none).map (engineReads (rowDialects r)) = some (sparkReads none) := by
+  decide +kernel
+
+/-- explicit formats (every element and separator the check's pools use) keep their meaning through `format_execution_time` on every engine -/
+theorem C12_explicit_time_formats :
+    ∀ r ∈ engines, ∀ f ∈ ["yyyy/MM/dd HH:mm:ss", "dd-MM-yyyy HH:mm", "MM/dd/yyyy"],
+      engineReads (rowDialects r) (formatExecutionTime (rowDialects r) (some f.toList)) = sparkReads (some f.toList) := by
+  decide +kernel
+
+/-- the role matters: spelled in the OUTPUT dialect (Spark) the default means something else to Snowflake / Postgres / Redshift -/
+theorem C12_cex_defaultFormatRole :
+    engineReads snowflakeSession (timeFormatOf snowflakeSession.output).toList ≠ sparkReads none ∧
+    engineReads postgresSession (timeFormatOf postgresSession.output).toList ≠ sparkReads none := by
+  decide +kernel
+
+example : sparkReads none = "%Y-%m-%d %H:%M:%S".toList := by decide +kernel
+example : formatExecutionTime snowflakeSession none = "YYYY-MM-DD HH24:MI:SS".toList := by decide +kernel
+example : formatExecutionTime snowflakeSession (some "dd/MM/yyyy HH:mm".toList) = "DD/mm/yyyy hh24:mi".toList := by decide +kernel
+
+/-! #### explicit formats, of any length -/
+
+/-- the three tables the literal of `format_execution_time(fmt)` passes: read (generated role), written (generated role), and
+    finally read by the engine itself -/
+def execReadTbl (d : Dialects) : Tbl := tblOf (timeMappingOf (d.get execTimeReadRole))
+def execWriteTbl (d : Dialects) : Tbl := inverseOf (tblOf (timeMappingOf (d.get execTimeWriteRole)))
+def engineTbl (d : Dialects) : Tbl := tblOf (timeMappingOf d.execution)
+
+/-- scope of C12_format_execution_time: the format is a separated sequence of elements for each of the three tables in turn,
+    and every element comes back from the engine's language as the directive it started as -/
+def FormatTranslatable (d : Dialects) (segs : List Seg) : Prop :=
+  Functional (execReadTbl d) ∧ Functional (execWriteTbl d) ∧ Functional (engineTbl d) ∧
+  SegsOk (execReadTbl d) segs ∧
+  SegsOk (execWriteTbl d) (mapSegs (execReadTbl d) segs) ∧
+  SegsOk (engineTbl d) (mapSegs (execWriteTbl d) (mapSegs (execReadTbl d) segs)) ∧
+  mapSegs (engineTbl d) (mapSegs (execWriteTbl d) (mapSegs (execReadTbl d) segs)) = mapSegs (execReadTbl d) segs
+
+instance (d : Dialects) (segs : List Seg) : Decidable (FormatTranslatable d segs) := by
+  unfold FormatTranslatable; infer_instance
+
+/-- for EVERY format that is a separated sequence of translatable elements — any number of elements, any separators — the
+    literal `format_execution_time(fmt)` hands to the engine means, in the engine's own language, what fmt means in the dialect
+    the caller wrote it in.  (sqlglot's rewriting is `fmtTime`; the tables enter only through the decidable hypothesis.) -/
+theorem C12_format_execution_time (d : Dialects) (segs : List Seg) (h : FormatTranslatable d segs) :
+    engineReads d (formatExecutionTime d (some (flatSegs segs))) = readFormat (d.get execTimeReadRole) (flatSegs segs) := by
+  obtain ⟨f1, f2, f3, s1, s2, s3, hround⟩ := h
+  unfold engineReads formatExecutionTime readFormat writeFormat
+  show fmtTime (engineTbl d) (fmtTime (execWriteTbl d) (fmtTime (execReadTbl d) (flatSegs segs))) = fmtTime (execReadTbl d) (flatSegs segs)
+  rw [fmtTime_segments _ f1 segs s1, fmtTime_segments _ f2 _ s2, fmtTime_segments _ f3 _ s3, hround]
+
+/-- `yyyy-MM-dd HH:mm:ss` cut into its elements -/
+def stdSegs : List Seg :=
+  [⟨"yyyy".toList, "-".toList⟩, ⟨"MM".toList, "-".toList⟩, ⟨"dd".toList, " ".toList⟩, ⟨"HH".toList, ":".toList⟩, ⟨"mm".toList, ":".toList⟩, ⟨"ss".toList, []⟩]
+
+/-- the hypothesis is met on the fresh session of every engine that has a format language of its own (Snowflake, Postgres,
+    Redshift, Spark, Databricks), e.g. by the default format and by a day-first format with a 12-hour clock -/
+theorem C12_format_translatable_instances :
+    ∀ e ∈ ["snowflake", "postgres", "redshift", "spark", "databricks"],
+      FormatTranslatable { input := "spark", output := "spark", execution := e } stdSegs ∧
+      FormatTranslatable { input := "spark", output := "spark", execution := e }
+        [⟨"dd".toList, "/".toList⟩, ⟨"MM".toList, "/".toList⟩, ⟨"yy".toList, " ".toList⟩, ⟨"hh".toList, ".".toList⟩, ⟨"mm".toList, []⟩] := by
+  decide +kernel
+
+example : flatSegs stdSegs = "yyyy-MM-dd HH:mm:ss".toList := by decide
+-- outside the scope, rightly: BigQuery's writer folds %m/%d/%y into the single element %D, so MM/dd/yy is not translated element by element
+example : ¬ FormatTranslatable { input := "spark", output := "spark", execution := "bigquery" }
+    [⟨"MM".toList, "/".toList⟩, ⟨"dd".toList, "/".toList⟩, ⟨"yy".toList, []⟩] := by decide +kernel
+
+/-- engines whose format language is strftime itself (DuckDB): nothing is rewritten on the way, for any format whatsoever -/
+theorem C12_format_execution_time_strftime (d : Dialects) (f : List Char)
+    (hw : timeMappingOf (d.get execTimeWriteRole) = []) (he : timeMappingOf d.execution = []) :
+    engineReads d (formatExecutionTime d (some f)) = readFormat (d.get execTimeReadRole) f := by
+  have hid : ∀ s : List Char, fmtTime [] s = s := by
+    intro s
+    have : ∀ (n : Nat) (s : List Char), s.length ≤ n → fmtTimeAux [] n s = s := by
+      intro n
+      induction n with
+      | zero => intro s hs; have : s = [] := List.eq_nil_of_length_eq_zero (by omega); subst this; rfl
+      | succ n ih =>
+        intro s hs
+        cases s with
+        | nil => rfl
+        | cons c rest =>
+          rw [fmtTimeAux_cons]
+          have : longestMatch [] (c :: rest) = none := rfl
+          rw [this]
+          simp only [List.length_cons] at hs
+          rw [ih rest (by omega)]
+    exact this s.length s (Nat.le_refl _)
+  unfold engineReads formatExecutionTime readFormat writeFormat
+  rw [hw, he]
+  simp only [tblOf, List.map_nil, inverseOf, List.foldl_nil]
+  rw [hid, hid]
+
+example : timeMappingOf "duckdb" = [] := by decide
+
+/-! #### overlay -/
+
+/-- the generated pieces of `overlay_from_substr` and the generated `len` decisions of both branches -/
+theorem C12_overlay_decisions :
+    overlayHeadLenOffset = -1 ∧ overlayTailStartOffset = 0 ∧
+    (∀ f, overlayEmulKeepsLen f = (match f with | .omitted => false | _ => true)) ∧
+    (∀ f, overlayNativeHasFor f = (match f with | .omitted => false | _ => true)) := by
+  refine ⟨by decide, by decide, ?_, ?_⟩ <;> intro f <;> cases f <;> decide
+
+/-- scope hypothesis of the open finding H_overlayNullOnDuckdb: the engine's CONCAT does not skip NULLs, or the engine runs the
+    native OVERLAY, or no operand of the row is NULL -/
+def H_overlayNullOnDuckdb (e : String) (form : ArgForm) (x : OverlayRow) : Prop :=
+  concatSkipsNull e = false ∨ overlayIsEmulated e = false ∨ x.allPresent form = true
+
+instance (e : String) (form : ArgForm) (x : OverlayRow) : Decidable (H_overlayNullOnDuckdb e form x) := by
+  unfold H_overlayNullOnDuckdb; infer_instance
+
+/-- `F.overlay(src, replace, pos[, len])` means PySpark's overlay on EVERY engine, for every way of passing `len` (omitted, a
+    Python int, a column), every string, every position ≥ 1 and every length ≥ 0, NULL operands included — the emulation
+    (BigQuery, DuckDB, Snowflake) and the native OVERLAY (the others) agree.  Under H_overlayNullOnDuckdb. -/
+theorem C12_overlay (e : String) (form : ArgForm) (x : OverlayRow) (hd : x.inDomain) (hN : H_overlayNullOnDuckdb e form x) :
+    sqlframeOverlay e form x = overlaySpec form x := by
+  obtain ⟨hh, ht, hk, hf⟩ := C12_overlay_decisions
+  have emul : strictOverlay (emulOverlayCore form) form x = overlaySpec form x := by
+    unfold overlaySpec
+    apply strictOverlay_congr
+    intro s r p l _ _ hp hl
+    have h1 : 1 ≤ p := hd.1 p hp
+    have h2 : 0 ≤ l := by
+      rcases hl with ⟨_, h0⟩ | ⟨_, hl⟩
+      · omega
+      · exact hd.2 l hl
+    exact emulOverlayCore_eq form s r p l h1 h2 hh ht hk
+  have nat : strictOverlay (nativeOverlayCore form) form x = overlaySpec form x := by
+    unfold overlaySpec
+    apply strictOverlay_congr
+    intro s r p l _ _ _ _
+    exact nativeOverlayCore_eq form s r p l hf
+  unfold sqlframeOverlay
+  cases he : overlayIsEmulated e with
+  | false => simp only [Bool.false_eq_true, if_false]; exact nat
+  | true =>
+    simp only [if_true]
+    cases hc : concatSkipsNull e with
+    | false => simp only [Bool.false_eq_true, if_false]; exact emul
+    | true =>
+      simp only [if_true]
+      rcases hN with h | h | h
+      · rw [hc] at h; cases h
+      · rw [he] at h; cases h
+      · rw [skippingOverlay_present form x h hk]; exact emul
+
+/-- every supported engine is covered, and exactly BigQuery, DuckDB and Snowflake take the emulation -/
+theorem C12_overlay_dispatch :
+    supportedEngines.filter overlayIsEmulated = ["bigquery", "snowflake", "duckdb"] ∧
+    (∀ e ∈ supportedEngines, ∃ p ∈ overlayEmulated, p.1 = e) := by decide
+
+/-- the hypothesis is needed: on DuckDB a NULL source gives 'CORE', PySpark (and the native OVERLAY) NULL -/
+theorem C12_cex_overlayNull :
+    sqlframeOverlay "duckdb" .omitted ⟨none, some "CORE".toList, some 7, none⟩ = some "CORE".toList ∧
+    overlaySpec .omitted ⟨none, some "CORE".toList, some 7, none⟩ = none ∧
+    sqlframeOverlay "postgres" .omitted ⟨none, some "CORE".toList, some 7, none⟩ = none ∧
+    ¬ H_overlayNullOnDuckdb "duckdb" .omitted ⟨none, some "CORE".toList, some 7, none⟩ := by decide
+
+-- non-vacuity: PySpark's documented examples, through the emulation and through the native branch
+example : sqlframeOverlay "duckdb" .omitted ⟨some "SPARK_SQL".toList, some "CORE".toList, some 7, none⟩ = some "SPARK_CORE".toList := by decide
+example : sqlframeOverlay "duckdb" .column ⟨some "SPARK_SQL".toList, some "CORE".toList, some 7, some 0⟩ = some "SPARK_CORESQL".toList := by decide
+example : sqlframeOverlay "postgres" .pyInt ⟨some "SPARK_SQL".toList, some "CORE".toList, some 7, some 2⟩ = some "SPARK_COREL".toList := by decide
+example : (⟨some "SPARK_SQL".toList, some "CORE".toList, some 7, some 2⟩ : OverlayRow).inDomain ∧
+    H_overlayNullOnDuckdb "duckdb" .column ⟨some "SPARK_SQL".toList, some "CORE".toList, some 7, some 2⟩ := by decide
+-- what the `len` decision is for: if a column-valued len fell back to LENGTH(replace), 'SPARK_CORE' would come out instead of 'SPARK_CORESQL'
+example : nativeOverlay "SPARK_SQL".toList "CORE".toList 7 4 ≠ nativeOverlay "SPARK_SQL".toList "CORE".toList 7 0 := by decide
+
+/-! #### sequence -/
+
+/-- scope hypothesis of the open finding H_sequenceDescendingNoStep: the rendering does not use a constant step, or the range ascends -/
+def H_sequenceDescendingNoStep (rule : StepRule) (a b : Int) : Prop := rule = .direction ∨ rule = .native ∨ a ≤ b
+
+/-- the generated default-step rules: DuckDB's emulation follows the direction, Spark / Databricks run SEQUENCE natively,
+    BigQuery's emulation passes the constant 1 -/
+theorem C12_sequence_rules :
+    seqRuleOf "duckdb" = some .direction ∧ seqRuleOf "spark" = some .native ∧ seqRuleOf "databricks" = some .native ∧
+    seqRuleOf "bigquery" = some (.const 1) := by decide
+
+/-- `F.sequence(start, stop)` without a step is Spark's sequence on the DuckDB, Spark, Databricks and BigQuery sessions, for all
+    integers start and stop — under H_sequenceDescendingNoStep (which only BigQuery's constant step needs) -/
+theorem C12_sequence_noStep : ∀ e ∈ sequenceEngines, ∃ rule, seqRuleOf e = some rule ∧
+    ∀ a b : Int, H_sequenceDescendingNoStep rule a b → sqlframeSequence rule a b = sparkSequence a b := by
+  have key : ∀ e ∈ sequenceEngines, ∃ rule, seqRuleOf e = some rule ∧ (rule = .direction ∨ rule = .native ∨ rule = .const 1) := by decide
+  intro e he
+  obtain ⟨rule, hr, hk⟩ := key e he
+  refine ⟨rule, hr, ?_⟩
+  intro a b hH
+  rcases hk with rfl | rfl | rfl
+  · exact sqlframeSequence_direction a b
+  · rfl
+  · rcases hH with h | h | h
+    · cases h
+    · cases h
+    · exact sqlframeSequence_const_one a b h
+
+/-- on DuckDB no hypothesis is needed: the emulation counts down when start > stop -/
+theorem C12_sequence_duckdb (a b : Int) : ∃ rule, seqRuleOf "duckdb" = some rule ∧ sqlframeSequence rule a b = sparkSequence a b :=
+  ⟨.direction, C12_sequence_rules.1, sqlframeSequence_direction a b⟩
+
+/-- the hypothesis is needed: BigQuery's constant step gives [] for every descending range, Spark's rule never does -/
+theorem C12_cex_sequenceDescending (a b : Int) (h : b < a) :
+    sqlframeSequence (.const 1) a b = [] ∧ sparkSequence a b ≠ [] ∧ ¬ H_sequenceDescendingNoStep (.const 1) a b := by
+  obtain ⟨h1, h2⟩ := sqlframeSequence_const_one_desc a b h
+  refine ⟨h1, h2, ?_⟩
+  unfold H_sequenceDescendingNoStep
+  intro hh
+  rcases hh with hh | hh | hh
+  · cases hh
+  · cases hh
+  · omega
+
+example : sparkSequence 3 1 = [3, 2, 1] ∧ sparkSequence 1 4 = [1, 2, 3, 4] ∧ sparkSequence 2 2 = [2] := by decide
+example : sqlframeSequence .direction 3 1 = [3, 2, 1] ∧ sqlframeSequence (.const 1) 3 1 = [] := by decide
+example : H_sequenceDescendingNoStep (.const 1) 1 4 := Or.inr (Or.inr (by decide))
+
+/-! #### regexp_replace -/
+
+/-- the generated renderings carry the 'g' option wherever the engine would otherwise replace only the first match — with and
+    without a start position -/
+theorem C12_regexp_rows : ∀ e ∈ supportedEngines, ∃ r, regexpRowOf e = some r ∧
+    (regexpFirstOnly e = true → r.gNoPos = true ∧ r.gWithPos = true) := by decide
+
+/-- `F.regexp_replace(str, pattern, replacement[, 1])` replaces EVERY match on every supported engine, whatever the subject and
+    however many matches it has, with or without the position argument -/
+theorem C12_regexp_replace_all : ∀ e ∈ supportedEngines, ∀ (posGiven : Bool) (ps : List Piece),
+    sqlframeRegexpReplace e posGiven ps = replaceAll ps := by
+  intro e he posGiven ps
+  obtain ⟨r, hr, hg⟩ := C12_regexp_rows e he
+  unfold sqlframeRegexpReplace
+  rw [hr]
+  cases hf : regexpFirstOnly e with
+  | false => simp
+  | true =>
+    obtain ⟨h1, h2⟩ := hg hf
+    cases posGiven <;> simp [h1, h2]
+
+/-- what the option is for: a first-match-only rendering differs from Spark's exactly on subjects with two or more matches -/
+theorem C12_regexp_first_only (ps : List Piece) : replaceFirst ps ≠ replaceAll ps ↔ 2 ≤ hits ps := by
+  rw [Ne, replaceFirst_eq_replaceAll_iff]
+  omega
+
+example : replaceFirst [.ch 'a', .hit, .ch 'b', .hit, .ch 'c'] = [.ch 'a', .replaced, .ch 'b', .kept, .ch 'c'] := by decide
+example : replaceAll [.ch 'a', .hit, .ch 'b', .hit, .ch 'c'] = [.ch 'a', .replaced, .ch 'b', .replaced, .ch 'c'] := by decide
+example : regexpFirstOnly "duckdb" = true ∧ regexpFirstOnly "spark" = false := by decide
 
 /-! ### the property -/
 
